@@ -320,6 +320,26 @@ pub fn stress_sources() -> Vec<(String, String)> {
         "polymorphic-sites".into(),
         "function getx(o) -> o.x;\nfunction setx(o, v) -> o.x <- v;\nfunction callm(o, a) -> o.m(a);\nfunction plus(a, b) -> a + b;\nfunction at(c, i) -> c[i];\nfunction put(c, i, v) -> c[i] <- v;\nlet a = object begin let x = 1; let y = 2; function m(k) -> this.x + k; end;\nlet b = object begin let y = 20; let x = 10; function m(k) -> this.y + k; end;\nlet c = object extends a begin let z = 0; let x = 100; end;\nlet d = object begin let q = 7; let r = 8; let x = 1000; function m(k) -> k; function +(o) -> 5; function get(i) -> i * 2; function set(i, v) -> this.q <- v; end;\nlet arr = array(3, 4);\nprint(\"~ ~ ~ ~\\n\", getx(a), getx(b), getx(c), getx(d));\nprint(\"~ ~ ~ ~\\n\", getx(d), getx(c), getx(b), getx(a));\nsetx(a, 5); setx(b, 50); setx(c, 500); setx(d, 5000);\nprint(\"~ ~ ~ ~\\n\", a, b, c, d);\nprint(\"~ ~ ~ ~\\n\", callm(a, 1), callm(b, 1), callm(c, 1), callm(d, 1));\nprint(\"~ ~ ~\\n\", plus(1, 2), plus(d, 2), plus(3, 4));\nprint(\"~ ~ ~\\n\", at(arr, 1), at(d, 1), at(arr, 2));\nput(arr, 0, 9); put(d, 0, 9); put(arr, 1, 8);\nprint(\"~ ~\\n\", arr, d);\nlet i = 0;\nwhile i < 6 do begin\n  let o = if i % 2 == 0 then a else b;\n  print(\"~ ~ ~;\", getx(o), callm(o, i), setx(o, i));\n  i <- i + 1\nend;\nprint(\"\\n~ ~\\n\", a, b);\n".into(),
     ));
+    // constructs in positions generators rarely use
+    v.push(("definition-last-and-forward-call".into(), "print(\"~\\n\", late(2));\nprint(\"a\\n\");\nfunction late(k) -> k + 5\n".into()));
+    v.push(("let-inside-argument-inside-field-initializer".into(), "function id(v) -> v;\nlet o = object begin let f = id(let inner = 4) + inner; let g = begin let tmp = inner * 2; tmp + 1 end; end;\nprint(\"~ ~ ~\\n\", o.f, o.g, inner);\n".into()));
+    v.push(("block-and-conditional-receivers".into(), "let obj = object begin let v = 3; function m(a) -> this.v + a; end;\nprint(\"~\\n\", begin let t = obj; t end.m(1));\nprint(\"~\\n\", (if true then obj else null).m(2));\nprint(\"~\\n\", begin obj end.v);\nprint(\"~\\n\", array(2, obj)[1].m(3));\n".into()));
+    v.push(("this-escapes".into(), "let reg = array(2, null);\nfunction show(x) -> x.v;\nlet o = object begin let v = 7; function me() -> this; function store() -> reg[0] <- this; function pass() -> show(this); function chain() -> this.me().me().v; end;\no.store();\nprint(\"~ ~ ~ ~\\n\", o.me().v, reg[0].v, o.pass(), o.chain());\nreg[0].v <- 8;\nprint(\"~ ~\\n\", o.v, o.me());\n".into()));
+    v.push(("one-name-everywhere".into(), "let n = 1;\nfunction n(n) -> n + 1;\nlet o = object begin let n = 10; function n(n) -> this.n + n; end;\nbegin let n = 100; print(\"~ ~ ~ ~\\n\", n, n(n), o.n, o.n(n)) end;\nprint(\"~ ~\\n\", n, n(n));\nfunction show(show) -> show;\nlet show = 4;\nprint(\"~ ~\\n\", show, show(show));\n".into()));
+    v.push(("shadowing-four-levels".into(), "let x = 1;\nbegin\n  let x = 2;\n  begin\n    let x = 3;\n    begin let x = 4; x <- x + 10; print(\"~\\n\", x) end;\n    x <- x + 20; print(\"~\\n\", x)\n  end;\n  x <- x + 30; print(\"~\\n\", x)\nend;\nprint(\"~\\n\", x);\n".into()));
+    v.push(("parents-of-every-kind".into(), "let arr = array(2, object begin function who() -> 1; end);\nfunction mk() -> object begin function who() -> 2; end;\nlet c = true;\nlet a = object extends true begin end;\nlet b = object extends arr[0] begin end;\nlet d = object extends (if c then arr[1] else null) begin end;\nlet e = object extends begin let t = mk(); t end begin end;\nlet f = object extends mk() begin end;\nlet g = object extends 5 begin end;\nlet h = object extends null begin end;\nlet i = object extends array(2, 9) begin end;\nprint(\"~ ~ ~ ~ ~ ~ ~ ~\\n\", a & false, b.who(), d.who(), e.who(), f.who(), g + 1, g == 5, i[1]);\nprint(\"~ ~ ~ ~\\n\", a, g, h, i);\n".into()));
+    v.push(("empty-lists".into(), "function z() -> null;\nobject begin end;\nbegin end;\nprint(\"\");\nz();\narray(0, null);\nobject extends object begin end begin end;\nlet e = object begin end;\nprint(\"~ ~ ~ ~\\n\", z(), begin end, array(0, 1), e);\n".into()));
+    v.push(("trailing-separators".into(), "function f(a, b,) -> a * 10 + b;\nlet o = object begin let a = 1; function m(x,) -> x; end;\nlet p = object begin let a = 1 end;\nprint(\"~ ~ ~ ~\\n\", f(1, 2,), o.m(3,), begin 1; 2; end, p);\nbegin print(\"x\\n\"); end;\n".into()));
+    v.push(("child-in-parents-field".into(), "let p = object begin let child = null; function hello() -> 1; end;\nlet c = object extends p begin let v = 1; end;\np.child <- c;\nprint(\"~ ~ ~\\n\", c.v, c.hello(), p.child.v);\n".into()));
+    // expressions an optimiser would like to simplify (operators are overridable; x / x fails for 0); bodies re-entered through other objects, calls in tail position
+    v.push(("algebraic-identities".into(), "let o = object begin\n  function +(b) -> begin print(\"<+~>\", b); 101 end;\n  function -(b) -> begin print(\"<-~>\", b); 102 end;\n  function *(b) -> begin print(\"<*~>\", b); 103 end;\n  function /(b) -> begin print(\"</~>\", b); 104 end;\n  function %(b) -> begin print(\"<%~>\", b); 105 end;\n  function ==(b) -> begin print(\"<==>\"); 106 end;\n  function !=(b) -> begin print(\"<!=>\"); 107 end;\n  function <(b) -> begin print(\"<lt>\"); 108 end;\n  function >(b) -> begin print(\"<gt>\"); 109 end;\n  function <=(b) -> begin print(\"<le>\"); 110 end;\n  function >=(b) -> begin print(\"<ge>\"); 111 end;\n  function &(b) -> begin print(\"<&~>\", b); 112 end;\n  function |(b) -> begin print(\"<|~>\", b); 113 end;\nend;\nprint(\"~ ~ ~ ~ ~ ~\\n\", o + 0, o - 0, o * 1, o * 0, o / 1, o % 1);\nprint(\"~ ~ ~ ~ ~ ~\\n\", o == o, o != o, o < o, o > o, o <= o, o >= o);\nprint(\"~ ~ ~ ~ ~ ~\\n\", o & true, o | false, o & false, o | true, o - 1 + 1, o * 2 / 2);\nlet x = 7; let z = 0; let t = true; let f = false; let n = null;\nprint(\"~ ~ ~ ~ ~ ~ ~ ~\\n\", x + 0, 0 + x, x - 0, 0 - x, x * 1, 1 * x, x * 0, 0 * x);\nprint(\"~ ~ ~ ~ ~ ~ ~ ~\\n\", x / 1, x % 1, x - x, x / x, x % x, z * x, z / x, z % x);\nprint(\"~ ~ ~ ~ ~ ~ ~ ~\\n\", x == x, x != x, x < x, x <= x, x > x, x >= x, z == 0, 0 == z);\nprint(\"~ ~ ~ ~ ~ ~ ~ ~\\n\", t & true, t | false, t & false, f | true, t & t, f | f, t == t, f != f);\nprint(\"~ ~ ~ ~ ~ ~\\n\", n == n, n != n, n == null, null == n, n == 0, n == false);\nprint(\"~ ~ ~ ~\\n\", x + 1 - 1, x * 2 / 2, 2147483647 + 1 - 1, (x + 2147483647) - 2147483647);\nx <- x;\nprint(\"~\\n\", x);\n".into()));
+    v.push(("reentrant-methods-and-tail-calls".into(), "let a = object begin let id = 1; let other = null; function m(d) -> if d <= 0 then this.id else begin let before = this.id; let r = this.other.m(d - 1); before * 1000 + r * 10 + this.id end; end;\nlet b = object begin let id = 2; let other = null; function m(d) -> if d <= 0 then this.id else begin let before = this.id; let r = this.other.m(d - 1); before * 1000 + r * 10 + this.id end; end;\na.other <- b; b.other <- a;\nprint(\"~ ~ ~ ~\\n\", a.m(0), a.m(1), a.m(2), b.m(3));\nfunction even(n) -> if n == 0 then true else odd(n - 1);\nfunction odd(n) -> if n == 0 then false else even(n - 1);\nfunction count(n, acc) -> if n == 0 then acc else count(n - 1, acc + n);\nfunction last_local(n) -> begin let keep = n * 2; let r = if n == 0 then 0 else last_local(n - 1); keep + r end;\nprint(\"~ ~ ~ ~\\n\", even(10), odd(7), count(1000, 0), last_local(5));\nlet c = object begin let n = 0; function down(k) -> if k == 0 then this.n else begin this.n <- this.n + k; this.down(k - 1) end; end;\nprint(\"~ ~\\n\", c.down(100), c);\n".into()));
+    // degenerate programs
+    v.push(("empty-program".into(), "".into()));
+    v.push(("only-comments".into(), "// nothing\n/* at all */\n".into()));
+    v.push(("only-function-definition".into(), "function f() -> print(\"never\\n\")\n".into()));
+    v.push(("only-let".into(), "let x = 1".into()));
+    v.push(("only-null".into(), "null;".into()));
     // one method of more than 2^16 instructions behind a far jump; more than 2^15 constants
     let mut m = String::from("let x = 0;\nfunction long(c) -> if c then begin\n");
     for _ in 0..30_000 {
